@@ -66,6 +66,11 @@ ShortGhost == {[calls |-> q, gaps |-> g, hold |-> [a |-> 0, b |-> FALSE], store 
 ShortJoin == {[calls |-> q, gaps |-> g, hold |-> [a |-> h, b |-> FALSE], store |-> "ack", fault |-> NoFault, long |-> 0, join |-> TRUE] :
                 q \in {<<"putA1", "getA1">>, <<"putA2", "getA1">>, <<"getA1", "getA2">>, <<"putA1", "getA1", "getA2">>, <<"putA2x", "getA1">>},
                 g \in {<<45>>, <<75>>, <<100>>, <<105>>, <<45, 60>>, <<100, 10>>}, h \in {1, 2}}
+\* a caller that stops listening: the get's receiver is dropped right after the call (get_immutable has its value, an iterator is
+\* not read to the end) while a put on the same key rides the same lookup, or another reader does
+ShortAbandon == {[calls |-> q, gaps |-> g, hold |-> [a |-> h, b |-> FALSE], store |-> "ack", fault |-> NoFault, long |-> 0, abandon |-> {"getA1"}] :
+                   q \in {<<"putA1", "getA1">>, <<"getA1", "putA1">>, <<"getA1", "getA2">>, <<"getA1", "putA1", "getA2">>, <<"putA2", "getA1">>},
+                   g \in {<<0>>, <<30>>, <<45>>, <<75>>, <<0, 30>>, <<30, 45>>}, h \in {0, 1, 2}}
 Init == x = 0
 Next == UNCHANGED x
 Spec == Init /\ [][Next]_x
@@ -75,4 +80,5 @@ Emit == PrintT(<<"GEN", ToJson({p \in Short : Valid(p)})>>) /\ PrintT(<<"GEN", T
         /\ PrintT(<<"GEN", ToJson({p \in LongRepub : LValid(p)})>>)
         /\ PrintT(<<"GEN", ToJson({p \in ShortGhost : Valid(p)})>>)
         /\ PrintT(<<"GEN", ToJson({p \in ShortJoin : Valid(p)})>>)
+        /\ PrintT(<<"GEN", ToJson({p \in ShortAbandon : Valid(p)})>>)
 =============================================================================
